@@ -104,7 +104,8 @@ fn generate_dynamic(g: &mut Gen, stats: &mut GenStats) -> Scenario {
         depth: Depth::Unbounded,
         order: g.order(false),
         victims: vec![],
-        layers: vec![],
+        // a pass-through observer: its closure is where in-flight triggers fire
+        layers: vec![Layer::Fe(vec![])],
         taps: g.rng.chance(1, 3),
     };
     if g.rng.chance(5, 10) {
@@ -116,6 +117,7 @@ fn generate_dynamic(g: &mut Gen, stats: &mut GenStats) -> Scenario {
     let targets: Vec<&Node> = tree.iter().filter(|n| !protected(&n.path)).collect();
     let mut mutations = Vec::new();
     let mut schedule = Vec::new();
+    let mut triggers: Vec<Trigger> = Vec::new();
     let k = g.rng.range(1, 3);
     for _ in 0..k {
         if targets.is_empty() {
@@ -130,7 +132,11 @@ fn generate_dynamic(g: &mut Gen, stats: &mut GenStats) -> Scenario {
             continue;
         }
         let is_dir = t.kind == Kind::Dir;
+        // (in-flight triggers may fire in any order, so the restriction is symmetric: no link is
+        // made at or above the target of another mutation either)
+        let covers_other = mutations.iter().any(|m: &Mutation| is_under(&m.path, &t.path));
         let op = match g.rng.below(if is_dir { 6 } else { 3 }) {
+            2 if covers_other => MutOp::Remove,
             0 => MutOp::Remove,
             1 => MutOp::ToDir(g.rng.range(0, 2)),
             2 => MutOp::Retarget(if g.rng.chance(1, 2) { "nowhere".into() } else { ".".into() }),
@@ -138,11 +144,34 @@ fn generate_dynamic(g: &mut Gen, stats: &mut GenStats) -> Scenario {
             4 => MutOp::Add(g.rng.range(1, 3)),
             _ => MutOp::ToFile,
         };
-        let steps = if g.rng.chance(1, 2) { g.rng.range(0, 4) } else { g.rng.range(0, tree.len() + 2) };
-        for _ in 0..steps {
-            schedule.push(Step::W(0));
+        if g.rng.chance(1, 2) {
+            // in flight: the mutator strikes while a chosen entry is inside the stack (the closure
+            // of the observer layer is shown it) — aimed at the target itself, its parent, a
+            // sibling, or anywhere
+            let sibs: Vec<&Node> = tree.iter().filter(|n| parent(&n.path) == parent(&t.path) && n.path != t.path).collect();
+            let at = match g.rng.below(5) {
+                0 | 1 => t.path.clone(),
+                2 => parent(&t.path).to_string(),
+                3 if !sibs.is_empty() => g.rng.pick(&sibs).path.clone(),
+                _ => g.rng.pick(&tree).path.clone(),
+            };
+            triggers.push(Trigger {
+                w: 0,
+                path: at,
+                mutation: mutations.len(),
+            });
         }
-        schedule.push(Step::M(mutations.len()));
+        else {
+            let steps = match g.rng.below(20) {
+                0..=11 => g.rng.range(0, 2),
+                12..=16 => g.rng.range(0, 6),
+                _ => g.rng.range(0, tree.len() + 2),
+            };
+            for _ in 0..steps {
+                schedule.push(Step::W(0));
+            }
+            schedule.push(Step::M(mutations.len()));
+        }
         mutations.push(Mutation {
             path: t.path.clone(),
             op,
@@ -156,11 +185,13 @@ fn generate_dynamic(g: &mut Gen, stats: &mut GenStats) -> Scenario {
         walkers: vec![w],
         mutations,
         schedule,
+        triggers,
     }
 }
 
 pub fn generate(rng: &mut Rng, tier: Tier, stats: &mut GenStats) -> Scenario {
     let mut g = Gen::new(rng, tier);
+    g.spine_odds = 15;
     if g.rng.chance(3, 10) {
         return generate_dynamic(&mut g, stats);
     }
@@ -234,6 +265,7 @@ pub fn generate(rng: &mut Rng, tier: Tier, stats: &mut GenStats) -> Scenario {
         walkers: vec![w],
         mutations: vec![],
         schedule: vec![],
+        triggers: vec![],
     }
 }
 
@@ -483,6 +515,11 @@ fn dynamic_check(sc: &Scenario, env: &mut Env) -> Result<Outcome, HarnessError> 
     }
     walker_probes(w, &mut out);
     out.probe("config:dynamic");
+    for t in &sc.triggers {
+        if applied.contains(&t.mutation) {
+            out.probe("mutation:fired-in-flight-from-a-filter-closure");
+        }
+    }
     Ok(out)
 }
 
